@@ -8,8 +8,8 @@ PROP = dict(
               "decompose_loses_no_contour", "affine_key_equality",
               "decompose_multiset_refuted", "flatten_preserves_resolve", "split_preserves_resolve",
               "replacement_preserves_all_glyphs", "options_keep_every_glyph", "option_lattice",
-              "stored_components_in_range", "quantisation_bound", "quantisation_one_unit_per_level"],
-    prelude="Require Import FV.C12.Model.\nFrom Coq Require Import List NArith ZArith QArith Qcanon Bool.\n"
+              "stored_components_in_range", "decomposition_locations_transitive", "quantisation_bound", "quantisation_one_unit_per_level"],
+    prelude="Require Import FV.C12.Model FV.C12.Locs.\nFrom Coq Require Import List NArith ZArith QArith Qcanon Bool.\n"
             "Close Scope Qc_scope.\nClose Scope Q_scope.",
     harness_args=lambda tier, seed: ["--seed", str(seed), "--n", str(N[tier]), "--threads", "16"],
     env={"RAYON_NUM_THREADS": "1"},
